@@ -181,6 +181,30 @@ set_option maxRecDepth 20000 in
 example : OnlyLoops ("<loop value='v'>{var:v}</loop></loop><loop>{math:1}".toList.map Char.toNat) :=
   onlyLoops_of_check _ (by decide)
 
+/-- `parse_wf`, stage "blocks" (loops + multi-line if): if from no offset the Finder reports
+`{svar:` or the inline `{if` (`OnlyBlocks`; decidable form `onlyBlocksB`) — so the tags are `}`,
+`{var:`, `{raw:`, `{math:`, `<loop`, `</loop>`, `<if`, `<else` (incl. `<elseif`), `</if>`, in any
+nesting, order and (mal)formation: missing `case=`, unterminated quotes, `<else>` without `<if>`,
+`</loop>` inside an open `<if>`, tags running to the end of the content — the tag scanner makes no
+out-of-range read and what it returns is well-formed. -/
+theorem parse_wf_blocks {R : Type} (cfg : ScanCfg R) (c : List Nat)
+    (hn : c.length + 16 < 4294967296) (h : OnlyBlocks c) :
+    Safe (parse cfg c) (fun tags => wf c.length tags = true) :=
+  Qentem.Tmpl.parse_wf_blocks cfg c hn h
+
+/-- End-to-end for that sub-language (everything but `{svar:}` and inline `{if}`): parse + render
+makes no out-of-range access, for every value, formatter, escape setting, sort and group function. -/
+theorem render_safe_blocks {R : Type} [RealLike R] (cx : RCtx R) (hg : cx.guardIndexRead = true)
+    (cfg : ScanCfg R) (hn : cx.content.length + 16 < 4294967296) (h : OnlyBlocks cx.content)
+    (fuel : Nat) :
+    Safe ((parse cfg cx.content).bind (fun tags => renderTop cx tags fuel)) (fun _ => True) :=
+  Qentem.Tmpl.render_safe_blocks cx hg cfg hn h fuel
+
+set_option maxRecDepth 20000 in
+/-- non-vacuity: if / elseif / else inside a loop, a stray `<else>` -/
+example : OnlyBlocks ("<loop value='v'><if case='{var:v}'>a<elseif case='1'>b<else>c</if></loop><else>".toList.map Char.toNat) :=
+  onlyBlocks_of_check _ (by decide)
+
 /-- what a Finder result says about the content (lemma L1 of the staged proof) -/
 theorem finder_facts (c : List Nat) (hn : c.length + 16 < 4294967296) (off o m : Nat)
     (hoff : off ≤ c.length) (h : next c off = .ok (o, m)) : NextFacts c off o m :=
